@@ -144,6 +144,15 @@ def run (st : St) (args : List String) : St × String :=
     ({ st with conns := conns }, "ok")
   | ["sg.oemit", p] =>
     ({ st with conns := st.conns.map (fun k => otherOp k (fun o => emit o p.toNat!)) }, "ok")
+  | ["sg.oterm"] =>
+    -- the other object is removed: every subscriber of its signal is told (an error message: `other` for the signal
+    -- of this object) and its channel closes; nothing of that signal is registered any more
+    let conns := st.conns.map (fun k =>
+      let live := (k.o.subs.filter (fun s => s.leftAt.isNone)).length
+      let o1 := { k.o with registered := false, refs := 0, op := none,
+                           subs := k.o.subs.map (fun s => if s.leftAt.isNone then { s with leftAt := some k.o.delivered, cancelAt := s.cancelAt.orElse (fun _ => some (k.o.emitted.length, k.o.delivered)) } else s) }
+      { k with o := o1, c := drain (noises k.c live) })
+    ({ st with conns := conns }, "ok")
   | ["sg.osub", k] =>
     match st.conns[k.toNat!]? with
     | some c =>
@@ -156,6 +165,8 @@ def run (st : St) (args : List String) : St × String :=
     | some (ci, si) =>
       match st.conns[ci]? with
       | some c =>
+        -- after the object is gone the cancel function finds nothing to do
+        if (c.o.subs[si]?).any (fun s => s.leftAt.isSome) then (st, "done") else
         let k1 := otherOp c (fun o => cancel o si)
         (setConn st ci { k1 with o := leave k1.o si }, "done")
       | none => (st, "bad-op")
